@@ -13,7 +13,8 @@ Record uconn := {
   c_remote : Z;
   c_buf : list (list Z);        (* unread datagrams, oldest first *)
   c_closed : bool;              (* Conn.Close was called (buffer closed) *)
-  c_accepted : bool             (* returned by Accept *)
+  c_accepted : bool;            (* returned by Accept *)
+  c_limit : Z                   (* packet-count limit of the connection's buffer (SetLimitCount of its packetio.Buffer); 0 = none *)
 }.
 
 Record lst := {
@@ -56,14 +57,21 @@ Definition with_parts (s : lst) (cs : list (Z * nat)) (ac : list uconn) (q : lis
   {| conns := cs; allc := ac; acceptq := q; backlog := backlog s; accepting := acc; l_closed := lc; refs := rf;
      filter_kind := filter_kind s |}.
 
+(* the connection's buffer refuses a datagram when its packet-count limit is reached (packetio.ErrFull): the datagram is dropped,
+   the connection stays what and where it is *)
+Definition buf_full (c : uconn) : bool := (0 <? c_limit c) && (zlen (c_buf c) >=? c_limit c).
+
+Definition deliver_fn (p : list Z) (c : uconn) : uconn :=
+  if c_closed c then c
+  else if buf_full c then c
+  else {| c_remote := c_remote c; c_buf := c_buf c ++ [p]; c_closed := false; c_accepted := c_accepted c; c_limit := c_limit c |}.
+
 (* one datagram read by the read loop (only while the socket is open) *)
 Definition arrive (s : lst) (r : Z) (p : list Z) : lst :=
   if sock_closed s then s
   else
     let deliver id st :=
-      with_parts st (conns st)
-        (upd_conn (allc st) id (fun c => if c_closed c then c else
-           {| c_remote := c_remote c; c_buf := c_buf c ++ [p]; c_closed := false; c_accepted := c_accepted c |}))
+      with_parts st (conns st) (upd_conn (allc st) id (deliver_fn p))
         (acceptq st) (accepting st) (l_closed st) (refs st) in
     match lookup (conns s) r with
     | Some id => deliver id s
@@ -73,7 +81,7 @@ Definition arrive (s : lst) (r : Z) (p : list Z) : lst :=
         else if zlen (acceptq s) >=? backlog s then s
         else
           let id := length (allc s) in
-          let c := {| c_remote := r; c_buf := []; c_closed := false; c_accepted := false |} in
+          let c := {| c_remote := r; c_buf := []; c_closed := false; c_accepted := false; c_limit := 0 |} in
           deliver id (with_parts s ((r, id) :: conns s) (allc s ++ [c]) (acceptq s ++ [id]) (accepting s) (l_closed s) (refs s + 1))
     end.
 
@@ -82,7 +90,7 @@ Definition accept (s : lst) : lst * option (option nat) :=
   match acceptq s with
   | id :: rest =>
       (with_parts s (conns s) (upd_conn (allc s) id (fun c =>
-         {| c_remote := c_remote c; c_buf := c_buf c; c_closed := c_closed c; c_accepted := true |}))
+         {| c_remote := c_remote c; c_buf := c_buf c; c_closed := c_closed c; c_accepted := true; c_limit := c_limit c |}))
          rest (accepting s) (l_closed s) (refs s), Some (Some id))
   | [] => if l_closed s || sock_closed s then (s, Some None) else (s, None)
   end.
@@ -95,7 +103,7 @@ Definition conn_read (s : lst) (id : nat) (k : Z) : lst * (Z * list Z) :=
       match c_buf c with
       | p :: rest =>
           (with_parts s (conns s) (upd_conn (allc s) id (fun c0 =>
-             {| c_remote := c_remote c0; c_buf := rest; c_closed := c_closed c0; c_accepted := c_accepted c0 |}))
+             {| c_remote := c_remote c0; c_buf := rest; c_closed := c_closed c0; c_accepted := c_accepted c0; c_limit := c_limit c0 |}))
              (acceptq s) (accepting s) (l_closed s) (refs s),
            (if k <? zlen p then 1 else 0, zfirstn k p))
       | [] => (s, (if c_closed c then 2 else 3, []))
@@ -111,7 +119,7 @@ Definition conn_close (s : lst) (id : nat) : lst :=
       else
         with_parts s (remove_key (conns s) (c_remote c))
           (upd_conn (allc s) id (fun c0 =>
-             {| c_remote := c_remote c0; c_buf := c_buf c0; c_closed := true; c_accepted := c_accepted c0 |}))
+             {| c_remote := c_remote c0; c_buf := c_buf c0; c_closed := true; c_accepted := c_accepted c0; c_limit := c_limit c0 |}))
           (acceptq s) (accepting s) (l_closed s) (refs s - 1)
   end.
 
@@ -127,8 +135,14 @@ Definition listener_close (s : lst) : lst :=
     let s1 := fold_left discard (acceptq s) s in
     with_parts s1 (conns s1) (allc s1) [] false true (refs s1 - 1).
 
+(* the count limit of a connection's buffer is changed (harness accessor: Conn.buffer.SetLimitCount) *)
+Definition set_limit (s : lst) (id : nat) (n : Z) : lst :=
+  with_parts s (conns s) (upd_conn (allc s) id (fun c =>
+    {| c_remote := c_remote c; c_buf := c_buf c; c_closed := c_closed c; c_accepted := c_accepted c; c_limit := n |}))
+    (acceptq s) (accepting s) (l_closed s) (refs s).
+
 Inductive lop :=
-| LArrive (r : Z) (p : list Z) | LAccept | LRead (id : nat) (k : Z) | LConnClose (id : nat) | LClose.
+| LArrive (r : Z) (p : list Z) | LAccept | LRead (id : nat) (k : Z) | LConnClose (id : nat) | LClose | LSetLimit (id : nat) (n : Z).
 
 (* observation after every operation ends with the socket state (1 = closed) *)
 Definition l_step (s : lst) (o : lop) : lst * zs :=
@@ -144,6 +158,7 @@ Definition l_step (s : lst) (o : lop) : lst * zs :=
   | LRead id k => let '(s', (c, bs)) := conn_read s id k in (s', c :: zlen bs :: bs ++ [b2z (sock_closed s')])
   | LConnClose id => let s' := conn_close s id in (s', [b2z (sock_closed s')])
   | LClose => let s' := listener_close s in (s', [b2z (sock_closed s')])
+  | LSetLimit id n => let s' := set_limit s id n in (s', [b2z (sock_closed s')])
   end.
 
 Fixpoint l_run (s : lst) (h : list lop) : list zs :=
@@ -153,13 +168,14 @@ Fixpoint l_final (s : lst) (h : list lop) : lst :=
   match h with [] => s | o :: h' => l_final (fst (l_step s o)) h' end.
 
 (* wire: conf [backlog; filter kind]; op [1; remote; bytes...] arrive | [2] accept | [3; id; k] read |
-   [4; id] conn close | [5] listener close *)
+   [4; id] conn close | [5] listener close | [6; id; n] count limit of the connection's buffer *)
 Definition dec_lop (o : zs) : lop :=
   match o with
   | 1 :: r :: p => LArrive r p
   | 2 :: _ => LAccept
   | 3 :: id :: k :: _ => LRead (Z.to_nat id) k
   | 4 :: id :: _ => LConnClose (Z.to_nat id)
+  | 6 :: id :: n :: _ => LSetLimit (Z.to_nat id) n
   | _ => LClose
   end.
 
